@@ -205,6 +205,47 @@ static void sub_hugebuf(const args_t *a, long c, rng_t *r)
 	case_hash(n);
 }
 
+/* incompressible buffers of 0.5 .. 1 GiB: the *compressed* form is what is large here (zlib: >= 2^29 and >= 2^30 bytes, where a
+ * multiple of the compressed size no longer fits 32 bits); one forked child per case, byte-exact comparison */
+static void sub_hugerand(const args_t *a, long c, rng_t *r)
+{
+	(void)a;
+	static const struct { int alg, level; uint64_t n; } K[] = {
+		{2, 1, (1ULL << 30) + 4096}, {2, 0, (560ULL << 20) + 17},
+		{2, 0, (520ULL << 20) + 1}, {2, 6, (1ULL << 30) + 77}, {2, 0, (1ULL << 31) + 4096}, {1, -10000, (1ULL << 30) + 4096}, {3, -10000, (1ULL << 30) + 4096},
+		{4, 3, (600ULL << 20) + 5}, {5, 1, (1ULL << 30) + 4096}, {1, -10000, (1ULL << 31) + 4096},
+	};
+	int idx = (int)(c % (long)(sizeof K / sizeof K[0]));
+	uint64_t n = K[idx].n; int alg = K[idx].alg, level = K[idx].level;
+	uint8_t *buf = malloc(n);
+	if (!buf) { inconclusive("cannot allocate %" PRIu64 " bytes", n); return; }
+	uint64_t x = rnd64(r) | 1;
+	for (uint64_t i = 0; i + 8 <= n; i += 8) { x ^= x << 13; x ^= x >> 7; x ^= x << 17; memcpy(buf + i, &x, 8); }
+	for (uint64_t i = n & ~7ULL; i < n; i++) buf[i] = (uint8_t)i;
+	fflush(stdout);
+	pid_t pid = fork();
+	if (pid == 0) {
+		int nfd = open("/dev/null", O_WRONLY); dup2(nfd, 2);
+		uint8_t *out = NULL, *back = NULL; size_t lo = 0, lb = 0;
+		mtbl_res res = level == -10000 ? mtbl_compress((mtbl_compression_type)alg, buf, n, &out, &lo) : mtbl_compress_level((mtbl_compression_type)alg, level, buf, n, &out, &lo);
+		if (res != mtbl_res_success) _exit(10);
+		if (mtbl_decompress((mtbl_compression_type)alg, out, lo, &back, &lb) != mtbl_res_success) _exit(11);
+		if (lb != n || memcmp(back, buf, n) != 0) _exit(12);
+		_exit(lo >= (1ULL << 30) ? 21 : 20);
+	}
+	int st; waitpid(pid, &st, 0);
+	int code = WIFEXITED(st) ? WEXITSTATUS(st) : -1;
+	if (code == 10) statf(1, "hugerand.%s.refused", ALG[alg]);
+	else if (code == 20 || code == 21) { statf(1, "hugerand.%s.roundtrip_exact", ALG[alg]); if (code == 21) statf(1, "hugerand.%s.compressed_form_ge_1GiB", ALG[alg]); stat_add("roundtrips", 1); }
+	else if (code == 11) viol("C15/decompress-fails-on-own-output", "%s level %d: compress of %" PRIu64 " incompressible bytes reported success but decompress fails", ALG[alg], level, n);
+	else if (code == 12) viol("C15/roundtrip-differs", "%s level %d: %" PRIu64 " incompressible bytes do not come back unchanged", ALG[alg], level, n);
+	else viol("C15/abort-on-large-incompressible-buffer", "%s level %d: %" PRIu64 " incompressible bytes: the process died (status 0x%x) inside compress/decompress", ALG[alg], level, n, st);
+	free(buf);
+	STAT("hugerand.buffers");
+	if (want_sample()) sample("hugerand: %" PRIu64 " pseudo-random bytes, %s level %d: compress, decompress, memcmp in a forked child", n, ALG[alg], level);
+	case_hash(n * 31 + alg * 7 + (uint64_t)(level + 20000));
+}
+
 int main(int argc, char **argv)
 {
 	args_t a;
@@ -214,6 +255,7 @@ int main(int argc, char **argv)
 	else if (!strcmp(a.sub, "sized")) f = sub_sized;
 	else if (!strcmp(a.sub, "names")) f = sub_names;
 	else if (!strcmp(a.sub, "badtype")) f = sub_badtype;
+	else if (!strcmp(a.sub, "hugerand")) f = sub_hugerand;
 	else if (!strcmp(a.sub, "hugebuf")) f = sub_hugebuf;
 	else return 98;
 	if (want_sample()) sample("%s: cases %ld..%ld: each buffer through mtbl_compress and mtbl_compress_level for 5 algorithms x levels, output copied to an exact-size buffer, mtbl_decompress, byte compare", a.sub, a.start, a.start + a.count - 1);
